@@ -114,10 +114,16 @@ MUTANTS = [
       "            for i in range(len(bound.log_v_all))]",
       "            group['bound_{}'.format(i)], rng=bound.rng)\n"
       "            for i in range(1, len(bound.log_v_all))]", 'C09'),
-    M('resume-skips-second-bound', S, "                for i in range(1, len(self.shell_n)):\n"
-      "                    self.bounds.append(NautilusBound.read(",
-      "                for i in range(2, len(self.shell_n)):\n"
-      "                    self.bounds.append(NautilusBound.read(", 'C05'),
+    M('resume-skips-first-bound', S, "                for i in range(len(self.shell_n)):\n"
+      "                    if fstream['bound_{}'.format(i)].attrs['type'] == 'UnitCube':",
+      "                for i in range(1, len(self.shell_n)):\n"
+      "                    if fstream['bound_{}'.format(i)].attrs['type'] == 'UnitCube':", 'C05'),
+    M('resume-first-bound-by-position', S, "                for i in range(len(self.shell_n)):\n                    if fstream['bound_{}'.format(i)].attrs['type'] == 'UnitCube':\n                        self.bounds.append(UnitCube.read(\n                            fstream['bound_{}'.format(i)], rng=self.rng))\n                    else:\n                        self.bounds.append(NautilusBound.read(\n                            fstream['bound_{}'.format(i)], rng=self.rng))\n",
+      "                self.bounds = [\n"
+      "                    UnitCube.read(fstream['bound_0'], rng=self.rng), ]\n"
+      "                for i in range(1, len(self.shell_n)):\n"
+      "                    self.bounds.append(NautilusBound.read(\n"
+      "                        fstream['bound_{}'.format(i)], rng=self.rng))\n", 'C05 C01'),
     M('reader-class-dispatch-inverted', U, "        if group.attrs['bound_class'] == 'Ellipsoid':",
       "        if group.attrs['bound_class'] != 'Ellipsoid':", 'C09 C05'),
     M('acceptance-one-plus-inverse', U, "            p = 1 - 1.0 / n_bound", "            p = 1 + 1.0 / n_bound", 'C08'),
@@ -158,8 +164,9 @@ MUTANTS = [
       "                self.bounds[index].log_v):", 'C13'),
     M('top-up-one-short', U, "[:self.n_points_min]] = label", "[:self.n_points_min - 1]] = label",
       'C13'),
-    M('top-up-threshold-one-short', U, "np.bincount(labels) >= self.n_points_min):",
-      "np.bincount(labels) >= self.n_points_min - 1):", 'C13'),
+    M('top-up-threshold-one-short', U, "n_labels >= self.n_points_min):",
+      "n_labels >= self.n_points_min - 1):", 'C13'),
+    M('top-up-without-relabelling', U, "            labels[:] = 1 - label\n", "", 'C13'),
     M('kwargs-default-mutated', NN,
       "        default_neural_network_kwargs.update(neural_network_kwargs)\n"
       "        neural_network_kwargs = default_neural_network_kwargs\n",
@@ -662,11 +669,9 @@ MUTANTS = [
       "        group.attrs['n_reject'] = self.n_reject\n        if len(self.points) == 0:\n"
       "            return\n        group['points'].resize", 'C09 C05'),
     M('restore-by-group-iteration', S,
-      "                for i in range(1, len(self.shell_n)):\n"
-      "                    self.bounds.append(NautilusBound.read(\n"
-      "                        fstream['bound_{}'.format(i)], rng=self.rng))\n",
+      "                for i in range(len(self.shell_n)):\n                    if fstream['bound_{}'.format(i)].attrs['type'] == 'UnitCube':\n                        self.bounds.append(UnitCube.read(\n                            fstream['bound_{}'.format(i)], rng=self.rng))\n                    else:\n                        self.bounds.append(NautilusBound.read(\n                            fstream['bound_{}'.format(i)], rng=self.rng))\n",
       "                for key in fstream:\n"
-      "                    if key.startswith('bound_') and key != 'bound_0':\n"
+      "                    if key.startswith('bound_'):\n"
       "                        self.bounds.append(NautilusBound.read(\n"
       "                            fstream[key], rng=self.rng))\n", 'C05'),
     M('log-of-determinant', B, "np.linalg.slogdet(self.B)[1]", "np.log(np.linalg.det(self.B))",
@@ -686,8 +691,10 @@ MUTANTS = [
       "        t_start = time()\n        if self.explored:\n"
       "            self.discard_exploration = discard_exploration\n", 'C12'),
     M('generator-rebound-after-read', S,
-      "                        fstream['bound_{}'.format(i)], rng=self.rng))\n",
-      "                        fstream['bound_{}'.format(i)], rng=self.rng))\n"
+      "                        self.bounds.append(NautilusBound.read(\n"
+      "                            fstream['bound_{}'.format(i)], rng=self.rng))\n",
+      "                        self.bounds.append(NautilusBound.read(\n"
+      "                            fstream['bound_{}'.format(i)], rng=self.rng))\n"
       "                self.rng = np.random.default_rng(seed)\n", 'C11 C05'),
     M('setter-skips-unchanged', S,
       "        self._discard_exploration = discard_exploration\n        for index",
@@ -1215,8 +1222,8 @@ BENIGN += [
     dict(id='split-volume-test-mirrored', file=U, old="        if (logsumexp([new_bounds[0].log_v, new_bounds[1].log_v]) >\n                self.bounds[index].log_v):",
          new="        if (self.bounds[index].log_v < logsumexp([b.log_v for b in new_bounds])):",
          props=ALL.split()),
-    dict(id='top-up-threshold-strict-form', file=U, old="np.bincount(labels) >= self.n_points_min):",
-         new="np.bincount(labels) > self.n_points_min - 1):", props=ALL.split()),
+    dict(id='top-up-threshold-strict-form', file=U, old="n_labels >= self.n_points_min):",
+         new="n_labels > self.n_points_min - 1):", props=ALL.split()),
     dict(id='mixture-transform-copy-by-array', file=B, old="        points_t = np.copy(points)\n",
          new="        points_t = np.array(points, dtype=float)\n", props=ALL.split()),
     dict(id='new-shell-rows-empty-call', file=S, old="            self.log_l.append(np.zeros(0))",
